@@ -45,6 +45,8 @@ def optsets(tier, rnd):
             if 'gf' in sub and (tier != 'quick' or len(sub) <= 1):
                 # a separator the command line delivers as the integer 0 (misc.options_dict turns digits into int)
                 jobs.append({'fmt': fmt, 'o': set(sub), 'gfsep': '0'})
+                # ... and the empty separator (`gf_separator:`), "~" in the specification
+                jobs.append({'fmt': fmt, 'o': set(sub), 'gfsep': '~'})
     return jobs
 
 
